@@ -793,7 +793,7 @@ def check_send_refusal(ctx, mod, consts):
     cases = [("overlong key after valid entries", {b"alpha": b"1", b"z" * 256: b"2"}), ("overlong value after valid entries", {b"a": b"1", b"b": b"x" * 65536}),
              ("text value after valid entries", {b"a": b"1", b"b": "text"}), ("empty key before valid entries", {b"": b"1", b"b": b"2"})]
     for label, bad in cases:
-        tr = Stub("transport")
+        tr = Stub("transport", attrs={"disconnecting": False, "disconnected": False, "connected": True})     # an open connection
         proto = Inst(ctx.cls(AMP, "BinaryBoxProtocol"), boxReceiver=Stub("receiver"), transport=tr)
         k, r = run_eval(lambda: ev.method(proto, "sendBox", [DictInst(box_cls, data=dict(bad))]))
         _need(k, r, "BinaryBoxProtocol.sendBox")
